@@ -107,9 +107,10 @@ class OSMRoadNetwork(RoadNetwork):
 
         for _, node_data in graph.nodes(data=True):
             # Replace lat/lon with geoid
+            # (y, x) are (latitude, longitude)
             node_data["geoid"] = h3.geo_to_h3(
-                node_data.get("x", node_data.get("lat")),
-                node_data.get("y", node_data.get("lon")),
+                node_data.get("y", node_data.get("lat")),
+                node_data.get("x", node_data.get("lon")),
                 sim_h3_resolution,
             )
             for key in ["x", "y", "lat", "lon"]:
@@ -121,6 +122,18 @@ class OSMRoadNetwork(RoadNetwork):
             raise Exception("Was not able to build link helper")
         else:
             self.min_speed_kmph: Kmph = min(link.speed_kmph for link in link_helper.links.values())
+
+            # the smallest travel time per great-circle kilometer over all links. the straight-line
+            # distance to the destination at this pace never over-estimates the remaining travel
+            # time, which is what A* needs in order to return a fastest path.
+            paces = []
+            for u, v, d in graph.edges(data=True):
+                straight_line_km = H3Ops.great_circle_distance(
+                    graph.nodes[u]["geoid"], graph.nodes[v]["geoid"]
+                )
+                if straight_line_km > 0:
+                    paces.append(d[TIME_WEIGHT] / straight_line_km)
+            self.min_seconds_per_km: float = min(paces) if paces else 0.0
             # finish constructing OSMRoadNetwork instance
             self.graph = graph
             self.link_helper = link_helper
@@ -187,8 +200,7 @@ class OSMRoadNetwork(RoadNetwork):
             dist: Kilometers = H3Ops.great_circle_distance(
                 self.graph.nodes[source]["geoid"], self.graph.nodes[dest]["geoid"]
             )
-            time: Hours = dist / self.min_speed_kmph
-            return time * SECONDS_IN_HOUR
+            return dist * self.min_seconds_per_km
 
         # start path search from the end of the origin link, terminate search at the start of the
         # destination link
